@@ -184,9 +184,16 @@ def type_arms(stmts, aliases: dict, subject: str | None = None, _nested=False) -
     return out
 
 
+# module-level names bound once in the package to a literal tuple / list / set / frozenset of strings (filled by the
+# loader); lets `x in _VALID_SENSES` be read like `x in ("<=", ">=", "==")`
+LITERAL_TUPLES: dict = {}
+
+
 def _literal_strs(node):
     if isinstance(node, ast.Constant) and isinstance(node.value, str):
         return [node.value]
+    if isinstance(node, ast.Name) and node.id in LITERAL_TUPLES:
+        return list(LITERAL_TUPLES[node.id])
     if isinstance(node, (ast.Tuple, ast.List, ast.Set)):
         vals = []
         for e in node.elts:
@@ -202,6 +209,9 @@ def op_test(test):
     if isinstance(test, ast.Compare) and len(test.ops) == 1:
         op = test.ops[0]
         lits = _literal_strs(test.comparators[0])
+        if lits is None and isinstance(op, (ast.Eq, ast.NotEq)) and isinstance(test.left, ast.Constant) and isinstance(test.left.value, str):
+            # "lit" == X
+            return src(test.comparators[0]), [test.left.value], isinstance(op, ast.NotEq)
         if lits is not None:
             if isinstance(op, ast.Eq):
                 return src(test.left), lits, False
@@ -431,3 +441,20 @@ def reaching_value(node, name: str):
         if isinstance(st, (ast.For, ast.While)) and any(isinstance(x, ast.Name) and x.id == name and isinstance(x.ctx, ast.Store) for x in ast.walk(st)):
             return None
     return None
+
+
+def clone(node):
+    """Deep copy of a syntax tree through its fields only (copy.deepcopy would follow the ``_parent`` links and copy
+    the whole module)."""
+    if isinstance(node, list):
+        return [clone(x) for x in node]
+    if not isinstance(node, ast.AST):
+        return node
+    new = type(node)()
+    for f in node._fields:
+        if hasattr(node, f):
+            setattr(new, f, clone(getattr(node, f)))
+    for a in ("lineno", "col_offset", "end_lineno", "end_col_offset"):
+        if hasattr(node, a):
+            setattr(new, a, getattr(node, a))
+    return new
